@@ -65,6 +65,11 @@ def cases(tier, seed):
                     for rootopt in (False, True):
                         for fail in (None, "urlerror"):
                             yield {"k": "loc", "req": req, "cwd": cwd, "vcs": vcs, "state": state, "rootopt": rootopt, "fail": fail}
+    # the project root is itself a directory called LICENSES
+    for req in (["MIT"], ["GPL-2.0+", "LicenseRef-x.1"]):
+        for vcs, rootopt, cwd in (("git", True, "root"), ("git", True, "outside"), ("git", False, "root"), ("none", False, "root"), ("none", True, "root")):
+            for state in ("absent", "empty"):
+                yield {"k": "loc", "req": req, "cwd": cwd, "vcs": vcs, "state": state, "rootopt": rootopt, "fail": None, "rootname": "LICENSES"}
     for variant in ("output-new", "output-existing", "output-two-ids", "source-file", "source-dir", "source-missing", "source-dir-missing-file",
                     "source-existing-target", "all", "all-with-failure", "all-nothing-missing", "all-plus-id", "no-arguments"):
         for fail in (None, "http500"):
@@ -157,12 +162,12 @@ def ev_req(c) -> R:
 def ev_loc(c) -> R:
     r = R()
     base = fresh_dir("c19")
-    root = base / "proj"
+    root = base / c.get("rootname", "proj")
     materialise(root, base_tree(c["state"], c["req"]))
     (root / "LICENSES").mkdir(exist_ok=True) if c["cwd"] == "licenses" else None
     if c["vcs"] == "git":
         gitrepo.init(root)
-    cwd = {"root": root, "subdir": root / "src" / "sub", "licenses": root / "LICENSES"}[c["cwd"]]
+    cwd = {"root": root, "subdir": root / "src" / "sub", "licenses": root / "LICENSES", "outside": base}[c["cwd"]]
     before = read_tree(root)
     argv = (["--root", str(root)] if c["rootopt"] else []) + ["download", *c["req"]]
     assign = {strip_plus(c["req"][0]): c["fail"]} if c["fail"] else {}
@@ -170,7 +175,9 @@ def ev_loc(c) -> R:
         out = run_cli(argv, cwd=str(cwd))
     after = read_tree(root)
     # where must the licences go?
-    if c["rootopt"] or c["vcs"] == "git" or c["cwd"] == "root":
+    if c.get("rootname") == "LICENSES" and c["vcs"] == "none":
+        ldir = "."  # documented special case: inside a directory called LICENSES that is no repository, that directory is the target
+    elif c["rootopt"] or c["vcs"] == "git" or c["cwd"] == "root":
         ldir = "LICENSES"
     elif c["cwd"] == "licenses":
         ldir = "LICENSES"
@@ -179,7 +186,7 @@ def ev_loc(c) -> R:
     targets = sorted({strip_plus(i) for i in c["req"]})
     expect_new, fail = {}, False
     for t in targets:
-        p = f"{ldir}/{t}.txt"
+        p = f"{ldir}/{t}.txt" if ldir != "." else f"{t}.txt"
         if p in before:
             fail = True
         elif t.startswith("LicenseRef-"):
